@@ -84,17 +84,19 @@ fn plain_of(c: &Canon, directed: bool) -> PlainDoc {
 }
 
 fn plain_ser(doc: &PlainDoc, wire: Wire, w: &mut SimWriter) -> bool {
-    match wire {
-        Wire::Json => serde_json::to_writer(w, doc).is_ok(),
-        Wire::Cbor => serde_cbor::to_writer(w, doc).is_ok(),
+    if wire.is_cbor() {
+        serde_cbor::to_writer(w, doc).is_ok()
+    } else {
+        serde_json::to_writer(w, doc).is_ok()
     }
 }
 
 fn plain_de(bytes: &[u8], wire: Wire, plan: &StreamPlan) -> bool {
     let mut r = SimReader::new(bytes.to_vec(), plan.clone());
-    match wire {
-        Wire::Json => serde_json::from_reader::<_, PlainDoc>(&mut r).is_ok(),
-        Wire::Cbor => serde_cbor::from_reader::<PlainDoc, _>(&mut r).is_ok(),
+    if wire.is_cbor() {
+        serde_cbor::from_reader::<PlainDoc, _>(&mut r).is_ok()
+    } else {
+        serde_json::from_reader::<_, PlainDoc>(&mut r).is_ok()
     }
 }
 
@@ -253,10 +255,47 @@ fn rt_inner<F: Flavour>(sc: &RtSc, stats: &mut Stats) -> Option<Violation> {
     if let Err(m) = w2.check_invariant() {
         return Some(Violation::new("round-trip-mismatch", format!("the deserialised graph is malformed: {m}")));
     }
+    // the copy is a graph like any other: it round-trips again to the same graph
+    let again = F::g_ser(&g2, sc.wire).and_then(|b| F::g_de(&b, sc.wire));
+    match again {
+        Ok(g3) => {
+            let third = canon::<F>(&g3);
+            if third != src {
+                return Some(Violation::new(
+                    "round-trip-mismatch",
+                    format!("{} {:?}: the copy does not round-trip to the same graph again ({} nodes, then {})", sc.flavour, sc.wire, src.len(), third.len()),
+                ));
+            }
+        }
+        Err(e) => return Some(Violation::new("de-failed", format!("serialising and deserialising the copy failed: {e}"))),
+    }
+    // other payload types: String keys, () node and edge values (parallel edges indistinguishable)
+    let pairs: Vec<(usize, usize)> = sc.edges.iter().map(|(u, v, _)| (*u, *v)).collect();
+    match F::alt_round_trip(sc.prios.len(), &pairs, sc.wire) {
+        Ok((before, after)) => {
+            stats.inc("alt_type_round_trips");
+            if before != after {
+                return Some(Violation::new(
+                    "round-trip-mismatch",
+                    format!("{} {:?} with String keys and () values: before {before}, after {after}", sc.flavour, sc.wire),
+                ));
+            }
+        }
+        Err(e) => {
+            return Some(Violation::new(
+                "de-failed",
+                format!("{} {:?}: round trip of the same graph with String keys and () values failed: {e}", sc.flavour, sc.wire),
+            ))
+        }
+    }
     None
 }
 
 pub fn gen_graph(rng: &mut Rng, small: bool, max_n: usize) -> (Vec<u32>, Vec<(usize, usize, u64)>) {
+    if rng.chance(1, 150) {
+        // the empty container
+        return (Vec::new(), Vec::new());
+    }
     let n = if small { rng.range(1, 3) } else { rng.range(4, max_n) };
     let prios: Vec<u32> = (0..n).map(|_| rng.below(5) as u32).collect();
     let m = if small { rng.below(6) } else { rng.below(3 * n) };
@@ -293,6 +332,21 @@ pub fn gen_graph(rng: &mut Rng, small: bool, max_n: usize) -> (Vec<u32>, Vec<(us
         };
         edges.push((u, v, next));
     }
+    if rng.chance(1, 4) {
+        // parallel edges that carry the SAME value (indistinguishable, like `()` payloads):
+        // nothing may be merged or deduplicated
+        for _ in 0..rng.range(1, 4) {
+            if edges.is_empty() {
+                break;
+            }
+            let (u, v, e) = edges[rng.below(edges.len())];
+            if rng.chance(1, 3) {
+                edges.push((v, u, e));
+            } else {
+                edges.push((u, v, e));
+            }
+        }
+    }
     (prios, edges)
 }
 
@@ -324,7 +378,7 @@ impl Engine for RoundTrip {
         let (prios, edges) = gen_graph(rng, small, if tier == Tier::Quick { 24 } else { 40 });
         let mut insert_order: Vec<usize> = (0..prios.len()).collect();
         rng.shuffle(&mut insert_order);
-        let wire = if rng.coin() { Wire::Json } else { Wire::Cbor };
+        let wire = *rng.pick(&[Wire::Json, Wire::Json, Wire::Cbor, Wire::Cbor, Wire::Cbor, Wire::JsonValue, Wire::JsonStr]);
         let mode = rng.below(10);
         let via_stream = mode >= 3;
         let (mut wplan, mut rplan) = (StreamPlan::default(), StreamPlan::default());
@@ -515,9 +569,10 @@ fn base_value(prios: &[u32], edges: &[(usize, usize, u64)]) -> Value {
 }
 
 fn encode(v: &Value, wire: Wire) -> Vec<u8> {
-    match wire {
-        Wire::Json => serde_json::to_vec(v).unwrap(),
-        Wire::Cbor => serde_cbor::to_vec(v).unwrap(),
+    if wire.is_cbor() {
+        serde_cbor::to_vec(v).unwrap()
+    } else {
+        serde_json::to_vec(v).unwrap()
     }
 }
 
@@ -648,10 +703,7 @@ struct Declared {
 }
 
 fn declared_from_bytes(bytes: &[u8], wire: Wire) -> Option<Declared> {
-    let d: Option<PlainDoc> = match wire {
-        Wire::Json => serde_json::from_slice(bytes).ok(),
-        Wire::Cbor => serde_cbor::from_slice(bytes).ok(),
-    };
+    let d: Option<PlainDoc> = if wire.is_cbor() { serde_cbor::from_slice(bytes).ok() } else { serde_json::from_slice(bytes).ok() };
     d.map(|(nodes, edges)| Declared { nodes, edges })
 }
 
@@ -871,7 +923,7 @@ impl Engine for Untrusted {
         if let Some(f) = crate::runner::only_flavour() {
             flavour = f;
         }
-        let wire = if rng.coin() { Wire::Json } else { Wire::Cbor };
+        let wire = *rng.pick(&[Wire::Json, Wire::Json, Wire::Cbor, Wire::Cbor, Wire::JsonValue, Wire::JsonStr]);
         let small = rng.chance(3, 4);
         let (prios, edges) = gen_graph(rng, small, 6);
         let base = encode(&base_value(&prios, &edges), wire);
@@ -919,9 +971,10 @@ impl Engine for Untrusted {
             }
         }
         // enumerated: at every offset, byte values that are structurally meaningful in the format
-        let interesting: &[u8] = match wire {
-            Wire::Cbor => &[0x00, 0x17, 0x18, 0x1b, 0x3b, 0x5b, 0x7b, 0x80, 0x9a, 0x9b, 0x9f, 0xbb, 0xbf, 0xf6, 0xff],
-            Wire::Json => b"[],\"-9e{}: ",
+        let interesting: &[u8] = if wire.is_cbor() {
+            &[0x00, 0x17, 0x18, 0x1b, 0x3b, 0x5b, 0x7b, 0x80, 0x9a, 0x9b, 0x9f, 0xbb, 0xbf, 0xf6, 0xff]
+        } else {
+            b"[],\"-9e{}: "
         };
         if base.len() <= 120 {
             for at in 0..base.len() {
